@@ -16,7 +16,8 @@ PID = 'C19'
 TIMEOUT = 180.0
 CALL_TIMEOUT = 15.0
 RULE = ('every (entry point, signal) pair; per pair: all accepted layouts (writable and read-only, called twice), all '
-        'rejected layouts, all length mismatches; non-trivial = entry point has both accepted and rejected inputs')
+        'rejected layouts, all length mismatches; plus every history of 3 read-only queries (12-query alphabet) on one cycle '
+        'container, each answer compared with that of a fresh container; non-trivial = entry point has both accepted and rejected inputs')
 ASSUMPTIONS = ['the accepted / rejected layout sets are those of the property text: (n,), (n,1), (n,1,1) vs (n,2), (1,n), '
                '(n,2,3) for the single-signal sift routines; vector vs single column for transforms, envelope and cycle '
                'routines; equal vs shorter / longer second argument for multi-array routines',
@@ -199,6 +200,100 @@ def cases(tier, seed):
     for si in range(bounds(tier)['signals']):
         for name in entry_names():
             yield (name, si, seed)
+    # one cycle container handed to a history of read-only queries: the answer to a query is that of a fresh container
+    for si in range(bounds(tier)['signals']):
+        for first in range(len(QUERY_NAMES)):
+            yield ('Cycles:queries', si, seed, first)
+
+
+QUERY_NAMES = ('stat:cycle', 'stat:augmented', 'stat:samples', 'align:cycle', 'align:augmented', 'ctrl:cycle', 'ctrl:augmented',
+               'iterate', 'iterate:augmented', 'inds:augmented', 'dataframe', 'matching')
+
+
+def run_query(qi, C, x, phase):
+    import emd
+    CY = emd.cycles
+    q = QUERY_NAMES[qi]
+    if q == 'stat:cycle':
+        return np.asarray(CY.get_cycle_stat(C, x, func=np.max))
+    if q == 'stat:augmented':
+        return np.asarray(CY.get_cycle_stat(C, x, func=np.max, mode='augmented'))
+    if q == 'stat:samples':
+        return np.asarray(CY.get_cycle_stat(C, x, func=np.mean, out='samples'))
+    if q == 'align:cycle':
+        return np.asarray(CY.phase_align(phase, x, cycles=C, npoints=8, interp_kind='nearest')[0])
+    if q == 'align:augmented':
+        return np.asarray(CY.phase_align(phase, x, cycles=C, npoints=8, interp_kind='nearest', mode='augmented')[0])
+    if q == 'ctrl:cycle':
+        return np.asarray(CY.get_control_points(x, C))
+    if q == 'ctrl:augmented':
+        return np.asarray(CY.get_control_points(x, C, mode='augmented'))
+    def ragged(items):
+        out = []
+        for i, inds in items:
+            inds = [] if inds is None else np.asarray(inds).reshape(-1).tolist()
+            out.extend([-1000 - int(i), len(inds)] + [int(v) for v in inds])
+        return np.array(out, dtype=float)
+    if q == 'iterate':
+        return ragged(C)
+    if q == 'iterate:augmented':
+        return ragged(C.iterate(mode='augmented'))
+    if q == 'inds:augmented':
+        def inds_of(i):
+            r = C.get_inds_of_cycle(i, mode='augmented')
+            return [] if r is None else r
+        return ragged((i, inds_of(i)) for i in range(C.ncycles))
+    if q == 'dataframe':
+        return C.get_metric_dataframe().to_numpy()
+    return np.asarray(C.get_matching_cycles(['is_good==1']))
+
+
+def check_queries(case):
+    """All histories q1 q2 [q3] over the query alphabet that start with query `first`: every answer equals the answer
+    the same query gets from a freshly built container (and the phase / signal arrays stay untouched)."""
+    import emd
+    name, si, seed, first = case
+    x = signals.fb_signal(SIGNALS[si], seed)
+    phase = phase_of(x)
+    depth = 3
+    viols = []
+    trans = 0
+    fresh = {}
+
+    def answer(qi, C):
+        try:
+            with guard.watchdog(CALL_TIMEOUT):
+                return ('ok', run_query(qi, C, x, phase))
+        except guard.CaseTimeout:
+            raise
+        except Exception as e:
+            return ('raise', type(e).__name__)
+
+    def new():
+        return emd.cycles.Cycles(phase.copy(), compute_timings=True)
+    for qi in range(len(QUERY_NAMES)):
+        fresh[qi] = answer(qi, new())
+    x0, p0 = x.copy(), phase.copy()
+    import itertools
+    for rest in itertools.product(range(len(QUERY_NAMES)), repeat=depth - 1):
+        hist = (first,) + rest
+        C = new()
+        for k, qi in enumerate(hist):
+            got = answer(qi, C)
+            trans += 1
+            want = fresh[qi]
+            ok = got[0] == want[0] and (got[1] == want[1] if got[0] == 'raise' else same(got[1], want[1]))
+            if not ok:
+                viols.append(('query-depends-on-history:%s' % QUERY_NAMES[qi].split(':')[0],
+                              'Cycles on F_B%r: query %s after %s answers differently from the same query on a fresh container' % (
+                                  SIGNALS[si], QUERY_NAMES[qi], [QUERY_NAMES[j] for j in hist[:k]])))
+                break
+        if len(viols) > 20:
+            break
+    if not (np.array_equal(x, x0) and np.array_equal(phase, p0)):
+        viols.append(('input-modified', 'Cycles queries on F_B%r changed the signal or phase array' % (SIGNALS[si],)))
+    viols = [('Cycles:queries|%s' % k_, m_) for k_, m_ in viols]
+    return Outcome(cls='queries', transitions=trans, viols=viols, nontrivial=True)
 
 
 def flat(r):
@@ -235,6 +330,8 @@ def same(a, b):
 
 
 def check_case(case):
+    if case[0] == 'Cycles:queries':
+        return check_queries(case)
     name, si, seed = case
     ent = [e for e in entries() if e['name'] == name][0]
     x = signals.fb_signal(SIGNALS[si], seed)
